@@ -592,18 +592,27 @@ vbi_deferred_trigger(vbi_decoder *vbi)
 {
 	vbi_trigger *t, **tp;
 
-	for (tp = &vbi->triggers; (t = *tp); tp = &t->next)
-		if (t->fire <= vbi->time) {
-			vbi_event ev;
+	for (;;) {
+		vbi_event ev;
 
-			ev.type = VBI_EVENT_TRIGGER;
-			ev.ev.trigger = &t->link;
-			vbi_send_event(vbi, &ev);
+		for (tp = &vbi->triggers; (t = *tp); tp = &t->next)
+			if (t->fire <= vbi->time)
+				break;
 
-			*tp = t->next;
-			free(t);
-		} else
-			tp = &t->next;
+		if (NULL == t)
+			break;
+
+		/* Unlink first and rescan from the head afterwards:
+		   the handler may register or unregister a handler,
+		   which calls vbi_trigger_flush(). */
+		*tp = t->next;
+
+		ev.type = VBI_EVENT_TRIGGER;
+		ev.ev.trigger = &t->link;
+		vbi_send_event(vbi, &ev);
+
+		free(t);
+	}
 }
 
 static void
